@@ -1,1 +1,80 @@
-From Verif Require Import Base Tie.
+(* C13 -- contrast codings are valid, honour their options, and are interchangeable.
+   The matrices are those of Model/Coding.v (mirroring formulae/categorical.py); [entry_bridge]
+   ties the executable list model to the MathComp matrices entry by entry.  All statements hold
+   for every number of levels n = m.+1 and every reference / omitted level. *)
+From Coq Require ZArith List.
+From Verif Require Base Coding.
+From mathcomp Require Import all_ssreflect all_algebra.
+From Verif Require Import Contrast.
+From Verif Require Tie.
+
+Set Implicit Arguments.
+Unset Strict Implicit.
+Import GRing.Theory.
+Local Open Scope ring_scope.
+
+(* treatment: n-1 columns, column j is the indicator of level (lift r j), the reference row is 0 *)
+Theorem C13_treat_columns (F : fieldType) (m : nat) (r i : 'I_m.+1) (j : 'I_m) :
+  treat F r i j = (i == lift r j)%:R.
+Proof. exact: treat_col_indicator. Qed.
+
+Theorem C13_treat_reference_row (F : fieldType) (m : nat) (r : 'I_m.+1) : row r (treat F r) = 0.
+Proof. exact: treat_ref_row_zero. Qed.
+
+(* full rank together with the constant, for every field *)
+Theorem C13_treat_full_rank (F : fieldType) (m : nat) (r : 'I_m.+1) : row_free (with_const F r).
+Proof. exact: treat_full_rank. Qed.
+
+(* sum coding: columns add up to zero, the omitted level is coded -1 *)
+Theorem C13_sum_columns_zero (F : fieldType) (m : nat) (o : 'I_m.+1) (j : 'I_m) :
+  \sum_i sumc F o i j = 0.
+Proof. exact: sum_cols_zero. Qed.
+
+Theorem C13_sum_omitted_row (F : fieldType) (m : nat) (o : 'I_m.+1) (j : 'I_m) : sumc F o o j = -1.
+Proof. exact: sum_omit_row. Qed.
+
+(* full rank with the constant whenever the number of levels is invertible (every numeric field) *)
+Theorem C13_sum_full_rank (F : fieldType) (m : nat) (o : 'I_m.+1) :
+  m.+1%:R != 0 :> F -> row_free (sum_full F o).
+Proof. exact: sum_full_rank. Qed.
+
+Theorem C13_sum_unit_num (F : numFieldType) (m : nat) (o : 'I_m.+1) : sum_full F o \in unitmx.
+Proof. exact: sum_unit_num. Qed.
+
+(* full codings span all level indicators *)
+Theorem C13_treat_full_is_identity (F : fieldType) (m : nat) : treat_full F m = 1%:M.
+Proof. exact: treat_fullE. Qed.
+
+Theorem C13_sum_full_spans_everything (F : fieldType) (m : nat) (o : 'I_m.+1) :
+  m.+1%:R != 0 :> F -> ((sum_full F o)^T :=: 1%:M)%MS.
+Proof. exact: sum_full_colspace_full. Qed.
+
+(* interchangeable: one factor coded with any reference, with sum coding or with all indicators
+   has the same column space (column space = row space of the transpose) *)
+Theorem C13_reference_irrelevant (F : fieldType) (m : nat) (r r' : 'I_m.+1) :
+  ((with_const F r)^T :=: (with_const F r')^T)%MS.
+Proof. exact: treat_colspace_indep. Qed.
+
+Theorem C13_treatment_sum_same_space (F : fieldType) (m : nat) :
+  m.+1%:R != 0 :> F -> forall r o : 'I_m.+1, ((with_const F r)^T :=: (sum_full F o)^T)%MS.
+Proof. exact: treat_sum_colspace. Qed.
+
+Theorem C13_treatment_full_space (F : fieldType) (m : nat) (r : 'I_m.+1) :
+  ((with_const F r)^T :=: 1%:M)%MS.
+Proof. exact: treat_colspace_full. Qed.
+
+(* the executable model has exactly these entries *)
+Theorem C13_entry_bridge (F : fieldType) (n r i j : nat)
+        (rn : (r < n.+1)%N) (ilt : (i < n.+1)%N) (jlt : (j < n)%N) :
+  [/\ nth BinNums.Z0 (nth [::] (Coding.build n.+1 (n.+1 - 1)%N (Coding.treat_entry r)) i) j
+        = Coding.treat_entry r i j,
+      ZtoF F (Coding.treat_entry r i j) = treat F (Ordinal rn) (Ordinal ilt) (Ordinal jlt),
+      nth BinNums.Z0 (nth [::] (Coding.build n.+1 (n.+1 - 1)%N (Coding.sum_entry r)) i) j
+        = Coding.sum_entry r i j
+    & ZtoF F (Coding.sum_entry r i j) = sumc F (Ordinal rn) (Ordinal ilt) (Ordinal jlt)].
+Proof. exact: entry_bridge. Qed.
+
+Print Assumptions C13_treat_full_rank.
+Print Assumptions C13_sum_full_rank.
+Print Assumptions C13_treatment_sum_same_space.
+Print Assumptions C13_entry_bridge.
